@@ -146,6 +146,37 @@ CLAIMED = {
             "parameters and indexes (negative, >= 2^31) required to raise, and with substituted entropy for the key-validity branch.",
             "Primitive values are oracle tables; masters are sampled (reference-vector-like and random).",
             "DESIGN.md section 5 C12"),
+    "C13": ("TLA+ HDWallet system model (threads, children lists, generators, watch-only import, scramble): TLC exhaustive "
+            "to a call bound, negative-test deviations, TLC-simulated behaviours replayed on shared real objects incl. threads",
+            "HDWallet.tla keeps as state exactly what a regression could wrongly consult (children lists, generator cursors, "
+            "in-flight derivations split at the append) while results are the stateless reference F(root, path) of Bip32.tla "
+            "at toy scale. TLC checks Pure, ConcatIsSequence, GeneratorConsecutive, RootUnchanged, ObjectsAreReference over "
+            "all interleavings of two threads up to the call bound, and that a built-in wrong design (memoising by the "
+            "children list) violates Pure. Simulated behaviours (16 steps) are then stepped through SHARED real wallet/node/"
+            "generator objects - sequentially and four at a time on free-running threads - and every result is compared with "
+            "the model's outcome kind and with a stateless recomputation from the serialised root; invalid derivations of "
+            "the toy PRF are realised by substituting the HMAC answer for exactly that query.",
+            "Interleavings inside one call are stress-sampled only; the stateless reference is the implementation itself.",
+            "DESIGN.md section 5 C13"),
+    "C14": ("TLA+ HDWallet model invariants WatchAgrees/NoPrivateEver/HardenedRefused (TLC) + behaviour replay with a "
+            "watch-only import + TLC trace validation of watch-only wallets at real scale (Bip32/Address/ExtKey specs)",
+            "In HDWallet.tla the watch-only wallet is re-rooted at the neutered export node; TLC checks over all histories "
+            "that its nodes equal the full wallet's public data, that private-data requests yield error/none and that no "
+            "hardened component exists below it. Behaviours containing an import are replayed on real objects. Trace_Keys "
+            "validates recorded watch-only wallets built from each of the six public versions of nodes at depth 0..7: "
+            "network/key type from the version, node fields and all five addresses recomputed by the specification from the "
+            "FULL wallet's root, and ten private-data probes that must raise or return None.",
+            "Primitive values are oracle tables.",
+            "DESIGN.md section 5 C14"),
+    "C16": ("TLA+ HDWallet model invariants NoMix/ImportNet with a network-default deviation as negative test (TLC) + TLC "
+            "trace validation classifying every emitted string leaf by decoding it",
+            "HDWallet.tla tags every output with the wallet's network and copies the flag parent->child explicitly; TLC "
+            "checks NoMix/ImportNet over all histories and that a child taking the class default violates it. Trace_Keys "
+            "decodes every string leaf of generate(), node keys, the five address kinds, WIFs, the Wasabi export, "
+            "generators and wallets re-imported from each of the 12 prefixes with the specification's own Base58Check / "
+            "Bech32 / version-table operators and requires the wallet's network; generated paths must carry its coin type.",
+            "The BIP85 block is exempt by design rule (network-free outputs).",
+            "DESIGN.md section 5 C16"),
 }
 
 ALL = ["C%02d" % i for i in range(1, 21)]
